@@ -208,4 +208,149 @@ theorem elemLook_elemPut (k k' : Nat × Nat) (v : Bytes) (l : List ((Nat × Nat)
         simp [h2, this]
       · simp [h2]
 
+/-! sessions: what `ANIcreate_ann_tree` builds from the file when the type's tree is not there -/
+
+/-- the tree entry `ANIcreate_ann_tree` makes of one annotation element of the type's tag (`none`: an object annotation
+    shorter than its 4-byte target prefix) -/
+def entryOf (t tag : Nat) (p : (Nat × Nat) × Bytes) : Option (Nat × Entry) :=
+  match decodeAnn t (tag, p.1.2) p.2 with
+  | none => none
+  | some (target, _) => some (AN_CREATE_KEY t p.1.2, ⟨p.1.2, target.1, target.2⟩)
+
+/-- the annotations of type `t` that exist in the file, as tree entries, in DD order -/
+def fileEntries (elems : List ((Nat × Nat) × Bytes)) (t : Nat) : List (Nat × Entry) :=
+  match tagOfType t with
+  | none => []
+  | some tag => (elems.filter (fun p => p.1.1 == tag)).filterMap (entryOf t tag)
+
+/-- a well-formed DD list: no tag/ref twice, refs are 16-bit -/
+def FileOk (elems : List ((Nat × Nat) × Bytes)) : Prop :=
+  elems.Pairwise (fun p q => p.1 ≠ q.1) ∧ ∀ p ∈ elems, p.1.2 < 65536
+
+theorem treeIns_perm {key : Nat} {e : Entry} {tr tr' : List (Nat × Entry)} (h : treeIns key e tr = some tr') :
+    tr'.Perm ((key, e) :: tr) := by
+  induction tr generalizing tr' with
+  | nil => simp [treeIns] at h; subst h; exact List.Perm.refl _
+  | cons a t ih =>
+    obtain ⟨k', e'⟩ := a
+    simp only [treeIns] at h
+    split at h
+    · simp at h; subst h; exact List.Perm.refl _
+    · split at h
+      · simp at h
+      · cases hr : treeIns key e t with
+        | none => simp [hr] at h
+        | some t' =>
+          simp [hr] at h; subst h
+          exact ((ih hr).cons (k', e')).trans (List.Perm.swap _ _ _)
+
+theorem treeIns_isSome {key : Nat} (e : Entry) {tr : List (Nat × Entry)} (h : key ∉ tr.map (·.1)) :
+    ∃ tr', treeIns key e tr = some tr' := by
+  induction tr with
+  | nil => exact ⟨_, rfl⟩
+  | cons a t ih =>
+    obtain ⟨k', e'⟩ := a
+    simp only [List.map_cons, List.mem_cons, not_or] at h
+    simp only [treeIns]
+    split
+    · exact ⟨_, rfl⟩
+    · split
+      · exact absurd (by assumption) h.1
+      · obtain ⟨t', ht'⟩ := ih h.2
+        exact ⟨(k', e') :: t', by simp [ht']⟩
+
+theorem loadFold_perm (t tag : Nat) (ht : t < 65536) (es : List ((Nat × Nat) × Bytes)) (tr : List (Nat × Entry))
+    (hr : ∀ p ∈ es, p.1.2 < 65536) (hnd : es.Pairwise (fun p q => p.1.2 ≠ q.1.2))
+    (hfresh : ∀ p ∈ es, AN_CREATE_KEY t p.1.2 ∉ tr.map (·.1)) :
+    (es.foldl (fun tr p =>
+      match decodeAnn t (tag, p.1.2) p.2 with
+      | none => tr
+      | some (target, _) => (treeIns (AN_CREATE_KEY t p.1.2) ⟨p.1.2, target.1, target.2⟩ tr).getD tr) tr).Perm
+      (tr ++ es.filterMap (entryOf t tag)) := by
+  induction es generalizing tr with
+  | nil => simp
+  | cons a rest ih =>
+    simp only [List.foldl_cons]
+    have hr' : ∀ p ∈ rest, p.1.2 < 65536 := fun p hp => hr p (List.mem_cons_of_mem _ hp)
+    have hnd' := (List.pairwise_cons.mp hnd).2
+    have hne := (List.pairwise_cons.mp hnd).1
+    cases hd : decodeAnn t (tag, a.1.2) a.2 with
+    | none =>
+      have : entryOf t tag a = none := by simp [entryOf, hd]
+      simp only [List.filterMap_cons, this]
+      exact ih tr hr' hnd' (fun p hp => hfresh p (List.mem_cons_of_mem _ hp))
+    | some v =>
+      obtain ⟨target, txt⟩ := v
+      have he : entryOf t tag a = some (AN_CREATE_KEY t a.1.2, ⟨a.1.2, target.1, target.2⟩) := by simp [entryOf, hd]
+      simp only [List.filterMap_cons, he]
+      obtain ⟨tr', htr'⟩ := treeIns_isSome ⟨a.1.2, target.1, target.2⟩ (hfresh a List.mem_cons_self)
+      simp only [htr', Option.getD_some]
+      have hfresh' : ∀ p ∈ rest, AN_CREATE_KEY t p.1.2 ∉ tr'.map (·.1) := by
+        intro p hp hmem
+        rcases (treeIns_keys htr' _).mp hmem with h1 | h1
+        · have := (key_injective t p.1.2 t a.1.2 ht (hr' p hp) ht (hr a List.mem_cons_self) h1).2
+          exact hne p hp this.symm
+        · exact hfresh p (List.mem_cons_of_mem _ hp) h1
+      refine (ih tr' hr' hnd' hfresh').trans ?_
+      exact ((treeIns_perm htr').append_right _).trans List.perm_middle.symm
+
+theorem fileEntries_type (elems : List ((Nat × Nat) × Bytes)) (hok : FileOk elems) (t : Nat) (ht : t < 4) :
+    ∀ x ∈ fileEntries elems t, AN_KEY2TYPE x.1 = t := by
+  intro x hx
+  unfold fileEntries at hx
+  cases htag : tagOfType t with
+  | none => simp [htag] at hx
+  | some tag =>
+    simp only [htag, List.mem_filterMap, List.mem_filter] at hx
+    obtain ⟨p, ⟨hp, _⟩, he⟩ := hx
+    unfold entryOf at he
+    split at he
+    · simp at he
+    · simp only [Option.some.injEq] at he
+      subst he
+      exact key2type_create t p.1.2 (by omega) (hok.2 p hp)
+
+/-- **`ANIcreate_ann_tree`** on a type that is not loaded, in a file record whose tree holds no entry of that type:
+    the tree gains exactly the annotations of the type that exist in the file, each once -/
+theorem loadType_perm (s : AnState) (t : Nat) (ht : t < 4) (hnl : s.loaded.contains t = false) (hok : FileOk s.elems)
+    (hno : ∀ k ∈ s.tree.map (·.1), AN_KEY2TYPE k ≠ t) :
+    (loadType s t).tree.Perm (s.tree ++ fileEntries s.elems t) ∧ (loadType s t).loaded = t :: s.loaded ∧
+    (loadType s t).elems = s.elems := by
+  have h4 : t = 0 ∨ t = 1 ∨ t = 2 ∨ t = 3 := by omega
+  obtain ⟨tag, htag⟩ : ∃ tag, tagOfType t = some tag := by
+    rcases h4 with rfl | rfl | rfl | rfl <;> exact ⟨_, rfl⟩
+  unfold loadType fileEntries
+  simp only [hnl, htag, Bool.false_eq_true, if_false, and_self, and_true]
+  apply loadFold_perm t tag (by omega)
+  · intro p hp; exact hok.2 p (List.mem_filter.mp hp).1
+  · have h1 : (s.elems.filter (fun p => p.1.1 == tag)).Pairwise (fun p q => p.1 ≠ q.1) := hok.1.sublist List.filter_sublist
+    refine h1.imp_of_mem ?_
+    intro a b ha hb hab heq
+    have e1 : a.1.1 = tag := by simpa using (List.mem_filter.mp ha).2
+    have e2 : b.1.1 = tag := by simpa using (List.mem_filter.mp hb).2
+    exact hab (Prod.ext (e1.trans e2.symm) heq)
+  · intro p hp hmem
+    exact hno _ hmem (key2type_create t p.1.2 (by omega) (hok.2 p (List.mem_filter.mp hp).1))
+
+theorem filter_type_fileEntries (elems : List ((Nat × Nat) × Bytes)) (hok : FileOk elems) (t t' : Nat) (ht : t < 4) :
+    (fileEntries elems t).filter (fun p => AN_KEY2TYPE p.1 == t') = if t = t' then fileEntries elems t else [] := by
+  by_cases h : t = t'
+  · subst h
+    simp only [if_true]
+    exact List.filter_eq_self.mpr (fun x hx => by simp [fileEntries_type elems hok t ht x hx])
+  · simp only [h, if_false]
+    refine List.filter_eq_nil_iff.mpr (fun x hx => ?_)
+    simp [fileEntries_type elems hok t ht x hx, h]
+
+/-- one more type loaded: the tree gains that type's annotations of the file and nothing else -/
+theorem load_next (s : AnState) (t : Nat) (ht : t < 4) (L : List Nat) (hl : s.loaded = L) (hL : L.contains t = false)
+    (hok : FileOk s.elems) (F : List (Nat × Entry)) (hp : s.tree.Perm F) (hF : ∀ x ∈ F, AN_KEY2TYPE x.1 ≠ t) :
+    (loadType s t).tree.Perm (F ++ fileEntries s.elems t) ∧ (loadType s t).loaded = t :: L ∧ (loadType s t).elems = s.elems := by
+  have hno : ∀ k ∈ s.tree.map (·.1), AN_KEY2TYPE k ≠ t := by
+    intro k hk
+    obtain ⟨x, hx, rfl⟩ := List.mem_map.mp hk
+    exact hF x (hp.mem_iff.mp hx)
+  obtain ⟨a, b, c⟩ := loadType_perm s t ht (hl ▸ hL) hok hno
+  exact ⟨a.trans (hp.append_right _), hl ▸ b, c⟩
+
 end H4.Annot
